@@ -98,7 +98,7 @@ def run_check(prop, tier, seed, only_cases=None):
     lines = []  # stdout lines
 
     # 1. proof obligations
-    proofs = core.check_proofs(prop.id)
+    proofs = core.check_proofs(prop.id, deep=(tier == "thorough"))
     log("[%s] proofs ok=%s obligations=%d axioms=%s %s" % (prop.id, proofs["ok"], proofs["obligations"],
                                                        proofs["axioms"], proofs["detail"][:300]))
 
@@ -232,7 +232,7 @@ def run_check(prop, tier, seed, only_cases=None):
         violations += 1
     if not proofs["ok"] and not violations:
         replay = core.write_replay(prop.id, {"property": prop.id, "kind": "proof-obligation-failed",
-                                             "theorems": ["Props/%s.v: %s" % (prop.id, n) for n in proofs["names"]],
+                                             "theorems": ["%s: %s" % (", ".join(proofs.get("files", ["Props/%s.v" % prop.id])), n) for n in proofs["names"]],
                                              "detail": proofs["detail"]})
         lines.append("VIOLATION property=%s replay=%s no-failing-input-found" % (prop.id, os.path.relpath(replay, core.ROOT)))
         violations += 1
@@ -271,7 +271,10 @@ def _evidence(prop, tier, seed, proofs, cases, violations, t0, extra, n_model, n
     cov = {
         "obligations": max(1, proofs["obligations"]),
         "discharged": proofs["discharged"],
-        "checker_cmd": "make -C coq Props/%s.vo && coqc -Q coq NS coq/Props/%s.v (Print Assumptions compared with the allowlist; forbidden-keyword grep)" % (prop.id, prop.id),
+        "checker_cmd": "make -C coq %s && coqc -Q coq NS <each of those files> (one Print Assumptions report per theorem, union compared with the allowlist; forbidden-keyword grep over coq/)%s" % (
+            " ".join(f[:-2] + ".vo" for f in proofs.get("files", ["Props/%s.v" % prop.id])),
+            "; coqchk -o -silent on the compiled property files: ok=%s axioms=%s" % (proofs["coqchk"]["ok"], proofs["coqchk"]["axioms"]) if "coqchk" in proofs else " (coqchk runs in the thorough tier)"),
+        "property_files": proofs.get("files", []),
         "trusted_base": [
             "Coq 8.16.1 kernel (coqc, full .vo build; vm_compute used for model evaluation; no native_compute)",
             "axioms reported by Print Assumptions for this property: " + (", ".join(proofs["axioms"]) or "none (closed under the global context)"),
